@@ -104,3 +104,49 @@ Theorem C04_c_fill_rows_store_the_matrix : forall l1 l2 window0, (1 <= l1)%Z -> 
   forall i, (Z.of_nat i <= l1)%Z ->
   holds l1 l2 window0 d pen p1b p2b i (of_list (stored_rows l1 l2 window0 d pen p1b p2b i)).
 Proof. exact stored_rows_hold. Qed.
+
+(* dtw.warping_paths AS REGENERATED (Gen_pywps.v: the body from the List.length test to the end of the row loop, translated
+   by tools/pyfun.py; the (r+1) x (c+1) NumPy matrix is a flat row-major list and both coordinates of every 2-D subscript
+   are checked in the flag returned next to it).  Without a bound every cell of the matrix the code fills IS the
+   specification cell (the optimum over partial paths, C04_cell_lower_bound / C04_cell_attained), the matrix has
+   (r+1) * (c+1) cells and no subscript is out of range; with a bound B every cell is the specification cell or both
+   exceed B. *)
+From DV Require Import CLang PyDistPrune PyWpsGen.
+From DVGen Require Import Gen_pywps.
+
+Theorem C04_py_warping_paths_fill_as_written :
+  forall (u : usettings) (s1 s2 : list point) (idist : Z -> Z -> cost) (f1 f2 : list Z) mld mld_some zp1e zp2e,
+  (1 <= eff_window u (List.length s1) (List.length s2))%Z -> (1 <= List.length s1)%nat -> (1 <= List.length s2)%nat ->
+  (psi_1b u <= List.length s1)%nat -> (psi_2b u <= List.length s2)%nat ->
+  (forall i j, (i < List.length s1)%nat -> (j < List.length s2)%nat ->
+     idist (Z.of_nat i) (Z.of_nat j) = Fin (pdist (u_inner u) (nth i s1 []) (nth j s2 []))) ->
+  pen_ok u -> (psi_1b u < List.length s1 \/ psi_2e u < List.length s2)%nat ->
+  exists res, py_wps_fill idist f1 (Z.of_nat (List.length s1)) f2 (Z.of_nat (List.length s2)) Inf mld mld_some (adj_max_step u) true
+                (Fin (adj_penalty u)) (Z.of_nat (psi_1b u)) zp1e (Z.of_nat (psi_2b u)) zp2e (eff_window u (List.length s1) (List.length s2)) = (res, true) /\
+    (if mld_some && cltb mld (Fin (Z.abs (Z.of_nat (List.length s1) - Z.of_nat (List.length s2)))) then res = None
+     else exists dtw, res = Some dtw /\ List.length dtw = ((List.length s1 + 1) * (List.length s2 + 1))%nat /\
+          forall i j, (i <= List.length s1)%nat -> (j <= List.length s2)%nat ->
+            aget dtw (Z.of_nat i * Z.of_nat (List.length s2 + 1) + Z.of_nat j) = mget (wps_matrix u s1 s2) i j).
+Proof. exact py_wps_fill_spec. Qed.
+
+Theorem C04_py_warping_paths_fill_as_written_with_bound :
+  forall (u : usettings) (s1 s2 : list point) (B : cost) (idist : Z -> Z -> cost) (f1 f2 : list Z) mld mld_some zp1e zp2e,
+  (1 <= eff_window u (List.length s1) (List.length s2))%Z -> (1 <= List.length s1)%nat -> (1 <= List.length s2)%nat ->
+  (psi_1b u <= List.length s1)%nat -> (psi_2b u <= List.length s2)%nat ->
+  (forall i j, (i < List.length s1)%nat -> (j < List.length s2)%nat ->
+     idist (Z.of_nat i) (Z.of_nat j) = Fin (pdist (u_inner u) (nth i s1 []) (nth j s2 []))) ->
+  pen_ok u -> (psi_1b u < List.length s1 \/ psi_2e u < List.length s2)%nat ->
+  exists res, py_wps_fill idist f1 (Z.of_nat (List.length s1)) f2 (Z.of_nat (List.length s2)) B mld mld_some (adj_max_step u) true
+                (Fin (adj_penalty u)) (Z.of_nat (psi_1b u)) zp1e (Z.of_nat (psi_2b u)) zp2e (eff_window u (List.length s1) (List.length s2)) = (res, true) /\
+    (if mld_some && cltb mld (Fin (Z.abs (Z.of_nat (List.length s1) - Z.of_nat (List.length s2)))) then res = None
+     else exists dtw, res = Some dtw /\ List.length dtw = ((List.length s1 + 1) * (List.length s2 + 1))%nat /\
+          forall i j, (i <= List.length s1)%nat -> (j <= List.length s2)%nat ->
+            Q B (aget dtw (Z.of_nat i * Z.of_nat (List.length s2 + 1) + Z.of_nat j)) (mget (wps_matrix u s1 s2) i j)).
+Proof.
+  intros u s1 s2 B idist f1 f2 mld mld_some zp1e zp2e Hw Hr Hc Hp1 Hp2 Hd Hpen Hpsi.
+  destruct (py_wps_fill_refines u s1 s2 B idist f1 f2 Hw Hr Hc Hp1 Hp2 Hd mld mld_some zp1e zp2e) as (res & E & H).
+  exists res. split; [exact E|].
+  destruct (mld_some && cltb mld (Fin (Z.abs (Z.of_nat (List.length s1) - Z.of_nat (List.length s2))))); [exact H|].
+  destruct H as (dtw & -> & Hl & Hcells). exists dtw. split; [reflexivity|]. split; [exact Hl|].
+  intros i j Hi Hj. rewrite Hcells by assumption. apply wps_code_matrix_cells; assumption.
+Qed.
